@@ -4,7 +4,7 @@
 cd /verif
 declare -A TARGET=( [C05b]=C30 )
 for d in seeded/*/; do
-  n=$(basename $d); t=${TARGET[$n]:-${n%b}}
+  n=$(basename $d); t=${TARGET[$n]:-${n:0:3}}
   cd /repo && git checkout -q -- . && if ! git apply $OLDPWD/$d/patch.diff 2>/dev/null; then echo "$n patch-does-not-apply"; cd /verif; continue; fi
   cd /verif; out=$(./check $t quick 2>&1); rc=$?
   sig=$(echo "$out" | grep -a -m1 "signature:" | sed 's/ *signature: //')
